@@ -45,8 +45,8 @@ def run_cases(pid, cases, tag="impl", timeout=1500, jit=True, per_worker_min=6):
 
 # ----------------------------------------------------------------------------- exact vertices of polytopes
 def poly_vertices(spec):
-    """[(vertex as 3 Fractions, membership witness string)] of a box / hull / mesh collider, in
-    the exact rational semantics of narrow.sh_expr."""
+    """[(vertex as 3 Fractions, point witness string of type Pen.pwit)] of a box / hull / mesh collider,
+    in the exact rational semantics of narrow.sh_expr."""
     ps = nw.parts(spec)
     if spec["kind"] == "box":
         c = [Fr(float(x)) for x in ps[0][1]]
@@ -57,13 +57,12 @@ def poly_vertices(spec):
                 for s3 in (1, -1):
                     v = [c[i] + s1 * segs[0][i] + s2 * segs[1][i] + s3 * segs[2][i] for i in range(3)]
                     q = lambda s: "1" if s > 0 else "(-1)"
-                    out.append((v, f"(WSum WPt (WSum (WSeg {q(s1)}) (WSum (WSeg {q(s2)}) (WSeg {q(s3)}))))"))
+                    out.append((v, f"(PW (WSum WPt (WSum (WSeg {q(s1)}) (WSum (WSeg {q(s2)}) (WSeg {q(s3)})))))"))
         return out
     W = ps[0][1]
     out = []
     for i, v in enumerate(W):
-        ws = "; ".join("1" if j == i else "0" for j in range(len(W)))
-        out.append(([Fr(x) for x in v], f"(WHull [{ws}])"))
+        out.append(([Fr(x) for x in v], f"(PV {i})"))
     return out
 
 
